@@ -66,7 +66,8 @@ def _merge(dst: dict, src: dict) -> None:
 def _worker(args):
     modname, vseed, indices, tier, enumerated_slice = args
     faulthandler.enable()
-    faulthandler.dump_traceback_later(900, exit=True)
+    # watchdog against a hung worker (a step cap does not bound a hang); an enumeration slice of the thorough tier runs long
+    faulthandler.dump_traceback_later(900 if tier == "quick" else 4 * 3600, exit=True)
     import importlib
 
     mod = importlib.import_module(modname)
